@@ -18,6 +18,7 @@ package simrt
 import (
 	"fmt"
 	"math/rand/v2"
+	"reflect"
 	"runtime"
 	"sort"
 	"strconv"
@@ -450,6 +451,44 @@ func NoteKey[K comparable](k K) {
 		s.ptrIDs[any(k)] = len(s.ptrIDs)
 	}
 	s.mu.Unlock()
+}
+
+// SelectRecv replaces a blocking select statement whose cases all receive from channels. It returns the index
+// of the chosen case, the received value and the ok flag. Inside a simulation several ready cases are resolved
+// in source order (the runtime would pick one at random, which no seed controls); this is one of the choices
+// the select statement allows. When nothing is ready it blocks like the statement it replaces.
+func SelectRecv(chans ...any) (int, any, bool) {
+	cases := make([]reflect.SelectCase, len(chans))
+	for i, c := range chans {
+		cases[i] = reflect.SelectCase{Dir: reflect.SelectRecv, Chan: reflect.ValueOf(c)}
+	}
+	val := func(v reflect.Value) any {
+		if v.IsValid() && v.CanInterface() {
+			return v.Interface()
+		}
+		return nil
+	}
+	if active.Load() != nil {
+		for i := range cases {
+			if !cases[i].Chan.IsValid() || cases[i].Chan.IsNil() {
+				continue
+			}
+			if idx, v, ok := reflect.Select([]reflect.SelectCase{cases[i], {Dir: reflect.SelectDefault}}); idx == 0 {
+				return i, val(v), ok
+			}
+		}
+	}
+	idx, v, ok := reflect.Select(cases)
+	return idx, val(v), ok
+}
+
+// As converts a value received through SelectRecv back to its static type.
+func As[T any](v any) T {
+	if v == nil {
+		var zero T
+		return zero
+	}
+	return v.(T)
 }
 
 // Park parks the calling task until the scheduler wakes it. cond, if not nil,
